@@ -69,7 +69,7 @@ CLAIMED.update({
    note="Beacon node is a scripted stub that verifies signatures itself. Liveness judged at message granularity for multi-root duties."),
  "C15": dict(engine="runnersim", cat="fault_enumeration", ref="DESIGN.md §3 C15",
    technique="deterministic simulation: one operator's real runner + controller + ibft storage behind a fault-injecting database; seeded duty starts, local decisions, decided certificates for past/current/future heights and rounds, restarts and crash/error injection at the k-th storage call; reference model of the highest started/decided height",
-   text="StartDuty for a slot at or below the highest started or decided height must be refused (no instance, no broadcast), also after restart (the highest decided must survive); the stored highest decided and every stored height must never regress in (height, signer count). Crash points are sampled per operation (k-th storage call x before/after/error). Four known findings (compaction across rounds, swallowed read error, decided-below-running-height not recorded) are listed in known_findings.json.",
+   text="StartDuty for a slot at or below the highest started or decided height must be refused (no instance, no broadcast), also after restart (the highest decided must survive); the stored highest decided and every stored height must never regress in (height, signer count). One run in four is a proposer duty (pre-consensus phase: the RANDAO quorum may complete after a decided certificate for the height was processed - consensus must then not start); one step lets two other validators save their highest decided instance through the shared per-role store at the same time (two goroutines parked at every storage call, released in a prescribed order) and reads both back. Crash points are sampled per operation (k-th storage call x before/after/error). Four known findings (compaction across rounds, swallowed read error, decided-below-running-height not recorded) are listed in known_findings.json.",
    note="The simulator plays the rest of the committee with the real share keys (one value per height, so certificates never conflict). Durable state = committed writes."),
 })
 
